@@ -129,6 +129,11 @@ func walkInlined2(p *Prog, pk *packages.Package, env *inlEnv, depth int, active 
 			}
 			return true
 		}
+		// a function literal called where it is written
+		if lit, ok := ast.Unparen(call.Fun).(*ast.FuncLit); ok && depth < 3 {
+			walkInlined2(p, pk, newInlEnv(info, lit.Body, env, call, map[types.Object]ast.Expr{}, env), depth+1, active, seq, enter, visit)
+			return false
+		}
 		// a local closure
 		if id, ok := ast.Unparen(call.Fun).(*ast.Ident); ok && depth < 3 {
 			if d, ok := env.defs[info.Uses[id]]; ok && d.pos == 0 {
@@ -483,46 +488,62 @@ func ruleGenesisInit(c *Ctx) {
 		}
 		c.ok(key, l[0].call.Pos(), "on every success path")
 	}
-	// the fields of the struct value an argument stands for (composite literal, possibly through a local and &)
+	// the fields of the struct value an argument stands for: a composite literal (possibly through a local and &), a
+	// local declared with `var` or a literal and filled field by field before the call, or both
 	fieldsOf := func(s inlSite, arg ast.Expr) (map[string]ast.Expr, *inlEnv, bool) {
+		m := map[string]ast.Expr{}
 		x, fr := s.env.resolve(arg)
-		cl, ok := x.(*ast.CompositeLit)
-		if !ok {
+		switch v := x.(type) {
+		case *ast.CompositeLit:
+			for _, el := range v.Elts {
+				p, ok := el.(*ast.KeyValueExpr)
+				if !ok {
+					return nil, nil, false
+				}
+				k, ok := p.Key.(*ast.Ident)
+				if !ok {
+					return nil, nil, false
+				}
+				m[k.Name] = p.Value
+			}
+		case *ast.Ident:
+			// `var x T` (zero value) — the fields come from the assignments below
+			if _, isVar := fr.info.Uses[v].(*types.Var); !isVar {
+				return nil, nil, false
+			}
+			if _, isStruct := fr.info.TypeOf(v).Underlying().(*types.Struct); !isStruct {
+				if pt, ok := fr.info.TypeOf(v).Underlying().(*types.Pointer); !ok {
+					return nil, nil, false
+				} else if _, isStruct := pt.Elem().Underlying().(*types.Struct); !isStruct {
+					return nil, nil, false
+				}
+			}
+		default:
 			return nil, nil, false
 		}
-		m := map[string]ast.Expr{}
-		for _, el := range cl.Elts {
-			p, ok := el.(*ast.KeyValueExpr)
-			if !ok {
-				return nil, nil, false
-			}
-			k, ok := p.Key.(*ast.Ident)
-			if !ok {
-				return nil, nil, false
-			}
-			m[k.Name] = p.Value
+		// field assignments on the local the argument names, in the frame of the call, before the call
+		base := ast.Unparen(arg)
+		if u, ok := base.(*ast.UnaryExpr); ok && u.Op == token.AND {
+			base = ast.Unparen(u.X)
 		}
-		// the literal must be the whole story: the local it was stored in is not modified field by field afterwards
-		// on the way to the call (a reaching definition exists only when nothing else assigns the local; field writes
-		// through the local are looked for here)
-		if id, ok := ast.Unparen(arg).(*ast.Ident); ok {
+		if id, ok := base.(*ast.Ident); ok {
 			o := s.env.info.Uses[id]
-			written := false
 			ast.Inspect(s.env.body, func(n ast.Node) bool {
-				if as, ok := n.(*ast.AssignStmt); ok && as.Pos() < s.call.Pos() {
-					for _, l := range as.Lhs {
+				if _, isLit := n.(*ast.FuncLit); isLit {
+					return false
+				}
+				if as, ok := n.(*ast.AssignStmt); ok && as.Pos() < s.call.Pos() && as.Tok == token.ASSIGN && len(as.Lhs) == len(as.Rhs) {
+					for i, l := range as.Lhs {
 						if sel, ok := ast.Unparen(l).(*ast.SelectorExpr); ok {
 							if b, ok := ast.Unparen(sel.X).(*ast.Ident); ok && s.env.info.Uses[b] == o {
-								written = true
+								m[sel.Sel.Name] = as.Rhs[i]
+								fr = s.env
 							}
 						}
 					}
 				}
 				return true
 			})
-			if written {
-				return nil, nil, false
-			}
 		}
 		return m, fr, true
 	}
@@ -807,6 +828,39 @@ func ruleGenesisInit(c *Ctx) {
 
 	// who may skip signatures/proofs
 	allowed := map[string]bool{"KickStartState": true, "KickStartStateWithSignatures": true}
+	// an unexported function of the same package that only the kick-start helpers call is part of them
+	{
+		callers := map[string]map[string]bool{}
+		c.P.funcDecls(func(p2 *packages.Package, f2 *ast.FuncDecl) {
+			if p2 != pk || f2.Body == nil {
+				return
+			}
+			ast.Inspect(f2.Body, func(n ast.Node) bool {
+				if call, ok := n.(*ast.CallExpr); ok {
+					if f := calleeFunc(p2.TypesInfo, call); f != nil && f.Pkg() == pk.Types && !f.Exported() {
+						if callers[f.Name()] == nil {
+							callers[f.Name()] = map[string]bool{}
+						}
+						callers[f.Name()][f2.Name.Name] = true
+					}
+				}
+				return true
+			})
+		})
+		for round := 0; round < 3; round++ {
+			for h, cs := range callers {
+				ok := len(cs) > 0
+				for cn := range cs {
+					if !allowed[cn] {
+						ok = false
+					}
+				}
+				if ok {
+					allowed[h] = true
+				}
+			}
+		}
+	}
 	c.P.funcDecls(func(p2 *packages.Package, f2 *ast.FuncDecl) {
 		if f2.Body == nil {
 			return
